@@ -86,12 +86,18 @@ OBLIGATIONS += [
     _t("T2.cc", "t2_range_two_cached", ["C02", "C03", "C13", "C18"],
        "get_range[s,e): exactly the in-range keys with a value, each once, ascending by key - for every hash-map iteration order",
        "2 uncommitted keys, symbolic order variables, all s,e,k,v in u8", q=T(unwind=10, timeout=600), th=T(unwind=10, timeout=900)),
+    _t("T2.co", "t2_range_cached_over_stored", ["C03", "C13", "C18"],
+       "get_range: a cached entry over a stored row with the same key wins (value or deletion)",
+       "1 cached + 1 stored row, same key; all s,e,k,v", q=T(unwind=10, timeout=600), th=T(unwind=10, timeout=900)),
     _t("T2.cs", "t2_range_cached_and_stored", ["C02", "C03", "C13", "C18"],
-       "get_range merges cache over disk (same key: cache wins), sorted, every order",
-       "1 cached + 1 stored row (same or different key)", q=T(unwind=10, timeout=600), th=T(unwind=10, timeout=900)),
+       "get_range merges cache over disk (different keys), sorted, every order",
+       "1 cached + 1 stored row, different keys", th=T(unwind=10, timeout=1800)),
+    _t("T2.s", "t2_range_one_stored", ["C03", "C13", "C18"],
+       "get_range over one committed row: exact at both range boundaries",
+       "1 stored row; all s,e,k,v", q=T(unwind=10, timeout=600), th=T(unwind=10, timeout=900)),
     _t("T2.ss", "t2_range_two_stored", ["C02", "C03", "C13", "C18"],
-       "get_range over committed rows only: exact and sorted, every order of the result map",
-       "2 stored rows", q=T(unwind=10, timeout=600), th=T(unwind=10, timeout=900)),
+       "get_range over committed rows only: exact and sorted",
+       "2 stored rows (ascending)", th=T(unwind=10, timeout=1800)),
     _t("T2.ccc", "t2_range_three_cached", ["C02", "C13", "C18"],
        "get_range with 3 uncommitted keys: all 6 iteration orders", "3 cached keys with values",
        th=T(unwind=10, timeout=1800)),
@@ -149,6 +155,207 @@ OBLIGATIONS += [
        "history row {5:v1}, latest row v2 != v1, target 12", q=T(unwind=10, timeout=600), th=T(unwind=10, timeout=1200)),
     _t("T8.stalec", "t8_reorg_stale_latest_created_n12", ["C04", "C13"], "reorg from a cut state of a key created at block 20 deletes the stale latest row",
        "history row {5:None}, latest row v2, target 12", th=T(unwind=10, timeout=1200)),
+]
+
+BDB = "db::database::block_database::verif_b::"
+INST_B = "BlockDatabase<u8>"
+
+
+def _b(oid, h, props, what, bounds, q=None, th=None, **kw):
+    return dict(id=oid, engine="kani", harness=BDB + h, props=props,
+                tiers={k: v for k, v in (("quick", q), ("thorough", th)) if v is not None},
+                what=what, bounds=bounds, instantiation=INST_B, **kw)
+
+
+OBLIGATIONS += [
+    _b("B1", "b1_get_merge", ["C03", "C13"], "block table get(q) = cached row if cached, else stored row, else None",
+       "one row, all u64 keys, all presence combinations", q=T(unwind=10), th=T(unwind=10)),
+    _b("B2", "b2_last_key", ["C03", "C04", "C13"], "last_key = max(last stored key, last cached key), None if both empty",
+       "0-2 stored rows + 0-1 cached row, all u64 keys", q=T(unwind=10, timeout=600), th=T(unwind=10, timeout=900)),
+    _b("B3.disk", "b3_reorg_contiguous_disk", ["C01", "C04", "C13"], "block table reorg(n) deletes exactly the rows above n (3 stored rows), keeps n",
+       "n = 100 (concrete), rows n+1..n+3 on disk", q=T(unwind=10, timeout=600), th=T(unwind=10, timeout=900)),
+    _b("B3.hole", "b3_reorg_hole_on_disk", ["C04", "C13"], "block table reorg(n) also removes rows above a hole (state left by an interrupted reorg)",
+       "rows n+2, n+3 on disk, n+1 missing", q=T(unwind=10, timeout=600), th=T(unwind=10, timeout=900)),
+    _b("B3.cache", "b3_reorg_cache_only", ["C01", "C13"], "block table reorg(n) drops uncommitted rows above n",
+       "rows n+1, n+2 cached only", q=T(unwind=10, timeout=600), th=T(unwind=10, timeout=900)),
+    _b("B3.mixed", "b3_reorg_mixed", ["C01", "C04", "C13"], "block table reorg(n), rows partly on disk partly cached", "n+1 on disk, n+2, n+3 cached",
+       th=T(unwind=10, timeout=900)),
+    _b("B3.none", "b3_reorg_nothing_above", ["C01", "C13"], "block table reorg(n) with nothing above n changes nothing", "row n only",
+       th=T(unwind=10, timeout=900)),
+    _b("B4", "b4_commit", ["C03", "C04", "C13"], "block table commit writes every cached row then flushes (operation log); reads unchanged",
+       "2 cached rows", q=T(unwind=10, timeout=600), th=T(unwind=10, timeout=900)),
+    _b("B4.cut", "b4_commit_cut", ["C04"], "block table commit cut by a symbolic write budget: Err iff cut, a prefix of the rows is on disk",
+       "2 cached rows, budget 0..3", q=T(unwind=10, timeout=600), th=T(unwind=10, timeout=900)),
+]
+
+DDB = "db::brc20_prog_database::verif_d::"
+
+
+# Loops of the real code whose (fixed) trip count exceeds the harness-wide bound get their own bound;
+# keys are function-name substrings resolved to CBMC loop ids on every run (lib/unwind.py).
+# Measured: raising the harness-wide bound instead (10 -> 40) made every database-level harness time out.
+LONG_LOOPS = {
+    "<[u8; 20] as db::types::encode_decode::Encode>::encode": 21,
+    "<[u8; 32] as db::types::encode_decode::Encode>::encode": 33,
+    "<[u8; 20] as db::types::encode_decode::Decode>::decode": 21,
+    "<[u8; 32] as db::types::encode_decode::Decode>::decode": 33,
+    "<std::vec::Vec<u8> as db::types::encode_decode::Encode>::encode": 20,
+    "<std::vec::Vec<u8> as db::types::encode_decode::Decode>::decode": 20,
+    "memcmp.0": 66,
+}
+
+
+def TD(timeout=900, unwind=10, stubbing=False):
+    # database level: concrete keys up to 64 bytes + the 16-character config key
+    return T(unwind=unwind, unwindset=LONG_LOOPS, timeout=timeout, kmax=72, vmax=40, rcap=4, stubbing=stubbing)
+
+
+def _d(oid, h, props, what, bounds, q=None, th=None, **kw):
+    return dict(id=oid, engine="kani", harness=DDB + h, props=props,
+                tiers={k: v for k, v in (("quick", q), ("thorough", th)) if v is not None},
+                what=what, bounds=bounds, instantiation="Brc20ProgDatabase over 16 model tables", **kw)
+
+
+_VT = [("account_memory", "storage slots", True), ("code", "bytecode", False), ("account", "accounts", True),
+       ("number_and_index", "(block,index)->tx hash", False), ("tx_receipt", "receipts", False), ("tx", "transactions", False),
+       ("pending_txes", "pending pool", True), ("pending_op_return", "pending tx ids", False), ("tx_trace", "traces", False),
+       ("inscription_id", "inscription id->tx hash", False), ("contract_inscription", "contract->inscription id", False),
+       ("block_hash_to_number", "block hash->number", True)]
+
+OBLIGATIONS += [
+    _d("D1", "d1_heights", ["C01", "C03", "C04"], "latest/next height = cached height if present, else last key of the block-hash table (cache or disk), else 0; next = latest+1",
+       "all heights < 2^62, all presence combinations", q=TD(600), th=TD(900)),
+] + [
+    _d("D3." + n, "d3_reorg_" + n, ["C01", "C04"], f"database reorg(N) rolls back the {label} table: cached history {{N,N+1}} comes back truncated to {{N}}, heights above N deleted, caches empty",
+       "N = 15 concrete, one planted key, None-valued versions, all 16 tables constructed",
+       q=(TD(900) if quick else None), th=TD(1500))
+    for n, label, quick in _VT
+] + [
+    _d("D3.block_table", "d3_reorg_block_table", ["C01", "C04"], "database reorg(N) deletes block rows above N", "rows N, N+1 stored", q=TD(900), th=TD(1500)),
+    _d("D3.raw_block_table", "d3_reorg_raw_block_table", ["C01", "C04"], "database reorg(N) deletes raw block rows above N", "rows N, N+1 stored", th=TD(1500)),
+] + [
+    _d("D4." + n, "d4_commit_" + n, ["C03", "C04"], f"commit_changes persists the {label} table (cached history is on disk afterwards), caches empty, cached height forgotten",
+       "one planted key, all 16 tables constructed", q=(TD(900) if quick else None), th=TD(1500))
+    for n, label, quick in _VT
+] + [
+    _d("D4o", "d4o_heights_before_state", ["C03", "C04"], "commit_changes: every write to the block-number->hash store precedes every write to a versioned table's stores, also when cut at any write (symbolic budget); cut => Err",
+       "3 tables with cached rows, budget 0..12", q=TD(1200), th=TD(1800)),
+    _d("D5", "d5_clear_all", ["C03"], "clear_caches drops the cache of every table and the cached height and writes nothing",
+       "one planted row in each of 13 tables", q=TD(900), th=TD(1500)),
+    _d("D6.refuse", "d6_depth_guard_refuses", ["C01", "C05"], "database reorg(n) is refused without any write when the recorded maximum is more than 10 above n",
+       "recorded max 25, all n < 15", q=TD(900, stubbing=True), th=TD(1500, stubbing=True),
+       stubs=["alloc::fmt::format stubbed (error message text)"]),
+    _d("D6.pass", "d6_depth_guard_passes_at_10", ["C01"], "the database depth guard lets a target exactly 10 below the recorded maximum through (observed as reaching the first state table)", "max 25, n 15",
+       q=TD(900), th=TD(1500), expect="panic"),
+    _d("D7.mono", "d7_recorded_max_monotone", ["C01"], "set_block_hash never lowers the recorded maximum height (reorg 30->25, then block 26)",
+       "concrete heights", q=TD(900), th=TD(1500)),
+    _d("D7.follow", "d7_recorded_max_follows", ["C01"], "set_block_hash raises the recorded maximum and the cached height for a new highest block",
+       "concrete heights", q=TD(900), th=TD(1500)),
+    _d("D11", "d11_block_exists_guard", ["C05"], "require_block_does_not_exist rejects iff the number (cached or stored) or the hash is known",
+       "all presence combinations, concrete number/hash", q=TD(900), th=TD(1500)),
+]
+
+ENG = "engine::engine::verif_e::"
+API = "api::types::verif_p::"
+LOCK = "engine::precompiles::get_locked_pkscript_precompile::verif_lock::"
+
+
+def TE(timeout=900):
+    return T(unwind=10, unwindset=LONG_LOOPS, timeout=timeout, kmax=40, vmax=40, rcap=4)
+
+
+def _k(oid, h, props, what, bounds, q=None, th=None, inst="-", **kw):
+    return dict(id=oid, engine="kani", harness=h, props=props,
+                tiers={k: v for k, v in (("quick", q), ("thorough", th)) if v is not None},
+                what=what, bounds=bounds, instantiation=inst, **kw)
+
+
+OBLIGATIONS += [
+    _k("E1.commit", ENG + "e1_guard_commit", ["C03", "C05"], "commit_to_db is refused while a block is under construction, before any lock write",
+       "all waiting_tx_count != 0", q=TE(), th=TE(), inst="BRC20ProgEngine over the lock model"),
+    _k("E1.reorg", ENG + "e1_guard_reorg", ["C01", "C05"], "reorg is refused while a block is under construction, before any lock write",
+       "all waiting_tx_count != 0, all targets", q=TE(), th=TE(), inst="BRC20ProgEngine over the lock model"),
+    _k("E1.mine", ENG + "e1_guard_mine", ["C05", "C09"], "mine_blocks is refused while a block is under construction, before any lock write",
+       "all waiting_tx_count != 0, all counts", q=TE(), th=TE(), inst="BRC20ProgEngine over the lock model"),
+    _k("E2", ENG + "e2_reorg_acceptance", ["C01", "C05"], "engine reorg(n): Err above the height and more than 10 below it, Ok (no-op) at the height - never a storage or lock write",
+       "all heights < 2^62, all n outside (height-10, height)", q=TE(), th=TE(), inst="BRC20ProgEngine over the lock model"),
+    _k("E3", ENG + "e3_validate_next_tx", ["C05"], "validate_next_tx accepts exactly: idx = count and (count = 0 or same timestamp and hash) and the block is unknown",
+       "all counts, timestamps and indexes; same / different hash (two concrete values); block number known / unknown", q=TE(1200), th=TE(1800), inst="BRC20ProgEngine over the lock model"),
+    _k("E7", ENG + "e7_generated_hash_nonzero", ["C09", "C02"], "generate_block_hash(n) is never the zero hash and is injective",
+       "all n, m < 2^64-1", q=T(unwind=34, unwindset={"memcmp.0": 34}, timeout=600), th=T(unwind=34, unwindset={"memcmp.0": 34}, timeout=600)),
+    _k("P5", API + "p5_select_bytes_exactly_one", ["C05", "C15"], "select_bytes is Ok iff exactly one of the two encodings is present",
+       "all presence combinations", q=T(unwind=10), th=T(unwind=10)),
+    _k("P6.empty", API + "p6_decode_empty_payload", ["C09", "C15"], "payload decoder: an empty decoded vector (inputs \"\", \"=\", \"====\") yields None, not a panic",
+       "concrete input texts, decoded length 0 (or base64 error); base64 call stubbed", q=T(unwind=10, timeout=600), th=T(unwind=10, timeout=600),
+       stubs=["base64 decode call site stubbed (Err or arbitrary vector of the given length)"]),
+    _k("P6.pad", API + "p6_padding_stripped", ["C15"], "payload decoder hands base64 the input up to its first '=' (never a '=')",
+       "inputs AA=A, =AAA, AAA, AAA==", q=T(unwind=10, timeout=600), th=T(unwind=10, timeout=600), stubs=["base64 decode call site stubbed"]),
+    _k("P6.raw1", API + "p6_raw_prefix_d1", ["C15"], "payload decoder, raw prefix: the remaining bytes verbatim (here: none)", "decoded vector [0x00]",
+       q=T(unwind=10, timeout=600), th=T(unwind=10, timeout=600), stubs=["base64 decode call site stubbed"]),
+    _k("P6.raw3", API + "p6_raw_prefix_d3", ["C09", "C15"], "payload decoder, raw prefix: two remaining bytes verbatim, never a panic", "decoded vector [0x00, x, y], all x,y",
+       q=T(unwind=10, timeout=600), th=T(unwind=10, timeout=600), stubs=["base64 decode call site stubbed"]),
+    _k("P6.unk", API + "p6_unknown_prefix", ["C09", "C15"], "payload decoder: an unknown compression prefix yields None", "all prefixes > 2, one more arbitrary byte",
+       q=T(unwind=10, timeout=600), th=T(unwind=10, timeout=600), stubs=["base64 decode call site stubbed"]),
+    _k("P6.zstd", API + "p6_zstd_limit", ["C09", "C15"], "payload decoder, zstd branch: for every behaviour of the two zstd functions the result is None or <= CALLDATA_LIMIT bytes, never a panic",
+       "decoded vector [0x02, x]; zstd stubbed", th=T(unwind=10, stubbing=True, timeout=1800),
+       stubs=["base64 decode call site stubbed", "zstd_safe::{get_frame_content_size, decompress} stubbed: any result their signatures allow"]),
+    _k("P6.nada", API + "p6_nada_d2", ["C09", "C15"], "payload decoder, nada branch through the real nada crate: no panic, bounded", "decoded vector [0x01, x], all x",
+       th=T(unwind=10, timeout=1800), stubs=["base64 decode call site stubbed"]),
+] + [
+    _k(f"P9.len{n}", LOCK + f"p9_lock_script_pkscript_len{n}", ["C09"], "build_lock_script never panics",
+       f"pkscript of {n} arbitrary bytes, lock count 1..65535", q=(T(unwind=12, timeout=900) if n <= 2 else None), th=T(unwind=12, timeout=1800))
+    for n in (0, 1, 2, 3)
+]
+
+
+def _s(oid, module, func, props, what, bounds, fns, **kw):
+    return dict(id=oid, engine="smt", module=module, func=func, harness=f"smt/{module}.py:{func}", props=props,
+                tiers={"quick": dict(cap=120), "thorough": dict(cap=600)}, what=what, bounds=bounds,
+                instantiation="MIR of the real function -> SMT-LIB (QF_BV / LIA); cvc5 + z3", functions_decl=fns, **kw)
+
+
+OBLIGATIONS += [
+    _s("P1", "smt_gas", "run", ["C16", "C02"], "allowance = min(len*12000, 2^64-1); inverse never increases length or allowance; monotone; no panic",
+       "all 64-bit inputs (unbounded inside the machine width)", ["engine::utils::get_gas_limit", "engine::utils::get_inscription_byte_len"]),
+    _s("P2", "smt_key", "run", ["C14", "C18", "C02"], "(block<<64|index) key: order = lexicographic order of (block, index), injective, a block's rows form one contiguous key range",
+       "all 64-bit block numbers and indexes", ["db::brc20_prog_database::Brc20ProgDatabase::get_number_and_index_key"]),
+    _s("L1", "smt_key", "run_l1", ["C13"], "the representation invariant of a key history admits at most 11 versions (W = 10 read from the crate)",
+       "all integer block numbers", ["global::config::MAX_REORG_HISTORY_SIZE"]),
+]
+
+OBLIGATIONS += [
+    dict(id="K1", engine="smt", module="locks", func="run", harness="smt/locks.py:run", props=["C11"],
+         tiers={"quick": dict(cap=600), "thorough": dict(cap=1800)},
+         what="no two engine entry points can deadlock each other (and none can block on itself): schedule search over the lock-acquisition contexts extracted from the MIR of every BRC20ProgEngine method",
+         bounds="2 threads; every acquisition context (locks held + lock requested) of every engine entry point incl. closures, async bodies and inlined crate callees; nesting depth <= 7; writer-preferring RwLock semantics",
+         instantiation="MIR of engine::engine -> lock events -> SMT (LIA) schedule search, z3",
+         outside="tokio task scheduling and Notify, three-party cycles, locks other than SharedData, code reached only through revm's dynamic dispatch (precompiles)"),
+    dict(id="K2", engine="smt", module="locks", func="run_selfcheck", harness="smt/locks.py:run_selfcheck", props=["C11"],
+         tiers={"quick": dict(cap=120), "thorough": dict(cap=120)},
+         what="the schedule encoding itself: nested read vs queued writer deadlocks, sequential reads do not, opposite lock order deadlocks, consistent order does not, write-under-own-read blocks on itself",
+         bounds="5 reference scenarios with known answers", instantiation="SMT (LIA), z3"),
+]
+
+COD = "db::types::encode_decode::verif_c::"
+
+
+def TC(timeout=600):
+    return T(unwind=10, unwindset=LONG_LOOPS, timeout=timeout)
+
+
+_P3 = [("u8", "u8", True), ("u32", "u32", True), ("u64", "u64", True), ("array4", "[u8; 4]", False), ("option_u64", "Option<u64>", True),
+       ("tuple_u64_u8", "(u64, u8)", False), ("vec_u8_len0", "Vec<u8> (empty)", True), ("vec_u8_len3", "Vec<u8> (3 bytes)", True),
+       ("string_len2", "String (2 ASCII bytes)", False), ("u64ed", "U64ED", True), ("u128ed", "U128ED", True), ("u256ed", "U256ED", True),
+       ("u512ed", "U512ED", False), ("address", "AddressED", True), ("b256", "B256ED", True), ("address_nonce_key", "(AddressED, U64ED)", True),
+       ("bytes_len2", "BytesED (2 bytes)", False), ("account_info", "AccountInfoED", True)]
+OBLIGATIONS += [
+    _k("P3." + n, COD + "p3_" + n, ["C14"], f"codec of {ty}: decode(encode(x) ++ tail) = (x, len(encode(x))), exact encoded length",
+       "all values of the type inside the stated size, arbitrary 2-byte tail", q=(TC() if quick else None), th=TC(1200), inst=ty)
+    for n, ty, quick in _P3
+] + [
+    _k("P4." + n, COD + "p4_order_" + n, ["C14", "C18"] if n == "u128ed" else ["C14"], f"order preservation for {ty}: a < b <=> enc(a) <lex enc(b)",
+       "all pairs of values", q=TC(), th=TC(1200), inst=ty)
+    for n, ty in (("u64", "u64"), ("u64ed", "U64ED"), ("u128ed", "U128ED"), ("address_nonce", "(AddressED, U64ED), same address"))
 ]
 
 # properties whose check is registered in MANIFEST.json in this revision
